@@ -358,6 +358,72 @@ def rich_case(ctx: Ctx, seed: int) -> None:
             return
 
 
+def atomic_case(ctx: Ctx, seed: int, with_ts: bool = False) -> None:
+    """Lennard-Jones cluster explored with the atomic step taker and the molecular similarity; the moves are
+    large enough that some trial steps dissociate the cluster or fail to converge (the rejection paths of
+    global optimisation on atomistic systems)"""
+    import random
+    import warnings
+    from topsearch.data.coordinates import AtomicCoordinates
+    from topsearch.data.kinetic_transition_network import KineticTransitionNetwork
+    from topsearch.global_optimisation.basin_hopping import BasinHopping
+    from topsearch.global_optimisation.perturbations import AtomicPerturbation
+    from topsearch.potentials.atomic import LennardJones
+    from topsearch.sampling.exploration import NetworkSampling
+    from topsearch.similarity.molecular_similarity import MolecularSimilarity
+    from topsearch.transition_states.hybrid_eigenvector_following import HybridEigenvectorFollowing
+    from topsearch.transition_states.nudged_elastic_band import NudgedElasticBand
+    rng = random.Random(seed)
+    np.random.seed(seed)
+    random.seed(seed)
+    n = rng.choice([5, 6, 7])
+    base = np.array([[0, 0, 0], [1.1, 0, 0], [0, 1.1, 0], [0, 0, 1.1], [1.1, 1.1, 0], [1.1, 0, 1.1], [0, 1.1, 1.1]],
+                    dtype=float)[:n]
+    start = (base + 0.05 * np.random.rand(n, 3)).ravel()
+    coords = AtomicCoordinates(["C"] * n, start.copy())
+    pot = LennardJones()
+    sim = MolecularSimilarity(0.05, 1e-3, weighted=False)
+    ktn = KineticTransitionNetwork()
+    step = AtomicPerturbation(max_displacement=rng.choice([1.5, 2.0]), max_atoms=rng.choice([1, 2, 3]))
+    bh = BasinHopping(ktn, pot, sim, step)
+    ts_tol = 1e-4
+    hef = HybridEigenvectorFollowing(pot, ts_tol, 50, pushoff=0.4, max_uphill_step_size=0.2, positive_eigenvalue_step=0.05)
+    neb = NudgedElasticBand(pot, 10.0, 8.0, 15, 1e-2)
+    ns = NetworkSampling(ktn, coords, bh, hef, neb, sim)
+    tr = Trace()
+    real_run = hef.run
+
+    def t_run(c, tag=''):
+        out = real_run(c, tag=tag) if tag != '' else real_run(c)
+        if out[0] is not None and hef.failure == 'pushoff':
+            tr.flagged.add(np.asarray(out[0], float).tobytes())
+        return out
+    hef.run = t_run
+    cfg = {"label": f"LJ{n}", "bounds": list(coords.bounds), "e_crit": sim.energy_criterion, "ts_tol": ts_tol, "seed": seed}
+    calls = [("get_minima", lambda: ns.get_minima(coords, 25, 1e-6, rng.choice([0.5, 2.0]), test_valid=False)),
+             ("get_minima", lambda: ns.get_minima(coords, 15, 1e-6, 1.0, test_valid=False))]
+    if with_ts:
+        calls.append(("ts_closest", lambda: ns.get_transition_states('ClosestEnumeration', 1, remove_bounds_minima=False)))
+    done = []
+    for name, fn in calls:
+        try:
+            with warnings.catch_warnings(), np.errstate(all="ignore"):
+                warnings.simplefilter("ignore")
+                fn()
+        except Exception as e:
+            ctx.fail(f"pipeline-call-raises:{name}", f"{name} raised {type(e).__name__}: {e} on {cfg['label']} (atomic seed {seed})",
+                     {"atomic": True, "seed": seed, "with_ts": with_ts})
+            return
+        done.append(name)
+        ctx.stats.case({"surface": cfg["label"], "atomic_seed": seed, "calls": list(done), "n_minima": ktn.n_minima}, True)
+        ctx.stats.branch("atomic:" + name)
+        r = landscape_predicate(ktn, pot, cfg, tr)
+        if r:
+            ctx.fail(r[0], f"{r[1]} — after {done} on {cfg['label']} (atomic seed {seed})",
+                     {"atomic": True, "seed": seed, "with_ts": with_ts})
+            return
+
+
 def correspond(ctx: Ctx) -> None:
     rng = ctx.rng
     kinds = ["camelback", "cosine", "cosine", "schwefel"]
@@ -375,6 +441,8 @@ def predicates(ctx: Ctx) -> None:
         pipeline_case(ctx, kind, seed, ncalls, False)
     for seed in (11, 179, 301) + ((207, 225) if (ctx.thorough or deep) else ()):
         rich_case(ctx, seed)
+    for i in range(ctx.scale(3, 12) * (3 if deep else 1)):
+        atomic_case(ctx, 5 + i if i < 2 else rng.randrange(1 << 30), with_ts=(ctx.thorough and i % 4 == 3))
     n = ctx.scale(6, 40) * (3 if deep else 1)
     for i in range(n):
         kind = rng.choice(["camelback", "cosine", "cosine", "cosine", "schwefel"])
@@ -382,6 +450,11 @@ def predicates(ctx: Ctx) -> None:
 
 
 def replay(ctx: Ctx, data: dict) -> bool:
+    if data.get("atomic"):
+        atomic_case(ctx, data["seed"], bool(data.get("with_ts")))
+        for f in ctx.failures:
+            print(f"  {f.key}: {f.what}")
+        return not ctx.failures
     if data.get("rich"):
         rich_case(ctx, data["seed"])
         for f in ctx.failures:
